@@ -259,6 +259,11 @@ def part_select(ctx, n_layout, n_wild, parsers, mu):
     for ci, s in zip(specidx, spec):
         got = [int(x) for x in s.split(",")] if s else []
         if got != cases[ci]["expect"]:
+            # Spec.between is fed with the line numbers the *implementation* assigned; if those are already wrong
+            # (reported above as numbering failures) this self-consistency test of the harness says nothing
+            if ctx.violations or ctx.broken:
+                ctx.count("between_selfcheck_skipped")
+                continue
             raise core.InfraError("harness expectation differs from Spec.between: %r vs %r" % (cases[ci]["expect"], got))
     nc = nv = 0
     dist = {}
